@@ -749,6 +749,12 @@ class Visitor(ast.NodeVisitor):
         assert result is not PLACEHOLDER
 
         self.recomputed_values[node] = result
+
+        if isinstance(result, FirstExceptionInAll):
+            # The trace is only meant for the representation of the call;
+            # the computation continues with the actual result of ``all``, which is False.
+            result = False
+
         if inspect.iscoroutine(result):
             raise ValueError(
                 ("Unexpected coroutine {} as a result from a call. "
